@@ -596,9 +596,10 @@ pub fn gen_pipe_out(rng: &mut Rng) -> Program {
     let faults = gen_faults(rng, true);
     let mut g = Gen::new(rng, 1);
     let (o, s, out) = (0, 0, 0);
-    let n_items = g.rng.range(0, 10) as usize;
+    // (now and then a long input, so that whatever happens every so many items is reached)
+    let n_items = if g.rng.permille(120) { g.rng.range(10, 24) as usize } else { g.rng.range(0, 10) as usize };
     let depth = g.rng.range(1, 5) as usize;
-    let prefilled = g.rng.range(0, n_items as u64) as usize;
+    let prefilled = if g.rng.permille(200) { n_items } else { g.rng.range(0, n_items as u64) as usize };
     let mut t0 = vec![];
     for i in 0..prefilled {
         t0.push({ let __k = OpKind::Push { s, item: 10 + i as u32 }; g.op(__k) });
